@@ -22,6 +22,7 @@ import (
 	"go.minekube.com/common/minecraft/component"
 	"pgregory.net/rapid"
 
+	"go.minekube.com/gate/pkg/command"
 	"go.minekube.com/gate/pkg/edition/java/proto/packet/plugin"
 	"go.minekube.com/gate/pkg/edition/java/proxy/message"
 	"go.minekube.com/gate/pkg/gate/proto"
@@ -319,6 +320,14 @@ func (p *c26FakePlayer) Disconnect(reason component.Component) {
 }
 func (p *c26FakePlayer) Protocol() proto.Protocol { return proto.Protocol(763) }
 
+// SendMessage is not part of bungeecord.Player on the pinned tree (the responder has
+// no way to message one player); it is here so that a repaired responder that
+// looks for a message sink on the named player can be observed.
+func (p *c26FakePlayer) SendMessage(comp component.Component, _ ...command.MessageOption) error {
+	p.w.obs.toPlayer[p.i] = append(p.w.obs.toPlayer[p.i], c26Plain(comp))
+	return nil
+}
+
 type c26FakeServer struct {
 	w *c26World
 	i int
@@ -408,6 +417,15 @@ func (w *c26World) ConnectedServer() ServerConnection {
 		return nil
 	}
 	return w.conns[w.c.Requester]
+}
+
+// ConnectedServerOf is not part of Providers on the pinned tree (see SendMessage above).
+func (w *c26World) ConnectedServerOf(p Player) ServerConnection {
+	fp, ok := p.(*c26FakePlayer)
+	if !ok || w.c.Players[fp.i].Server < 0 {
+		return nil
+	}
+	return w.conns[fp.i]
 }
 
 func c26Plain(comp component.Component) string {
@@ -524,9 +542,8 @@ func c26CompareEffects(c c26Case, exp, obs *c26Effects) *verifkit.Violation {
 	if len(obs.toServer) > 0 {
 		return verifkit.Violationf(c26KeyMsgServer, "%s: the message was broadcast to every player of server(s) %v; the target of Message/MessageRaw is a player name (or ALL), reference: messages to players %v", what, obs.toServer, exp.toPlayer)
 	}
-	if len(exp.toPlayer) > 0 {
-		// Providers has no way to message a single player, so nothing the responder can do is right
-		return verifkit.Violationf(c26KeyMsgServer, "%s: the named player must receive the message %v; the responder did nothing observable", what, exp.toPlayer)
+	if fmt.Sprint(exp.toPlayer) != fmt.Sprint(obs.toPlayer) {
+		return verifkit.Violationf(c26KeyMsgServer, "%s: messages to single players %v, reference %v (the named player must receive the message)", what, obs.toPlayer, exp.toPlayer)
 	}
 
 	// ---- forwards to servers: which servers, how often
